@@ -432,4 +432,18 @@ theorem wantedOk_moves {cfg : Cfg} {K : Kind → Bool} {a b : Abs} (m : Moves cf
   | refl => rfl
   | step _ m ih => exact (wantedOk_move m).trans ih
 
+/-! ### only a handler with the `connPerm` permission (ERROR: closing link) opens a socket at once -/
+
+theorem sock_move {cfg : Cfg} {K : Kind → Bool} (hK : K .connPerm = false) {a b : Abs} (m : Move cfg K a b) :
+    b.sock = a.sock := by
+  cases m
+  case conn f h hp => rw [hK] at hp; cases hp
+  all_goals rfl
+
+theorem sock_moves {cfg : Cfg} {K : Kind → Bool} (hK : K .connPerm = false) {a b : Abs} (m : Moves cfg K a b) :
+    b.sock = a.sock := by
+  induction m with
+  | refl => rfl
+  | step _ m ih => exact (sock_move hK m).trans ih
+
 end C08
